@@ -8,6 +8,8 @@ R14.2 [FIN]         the path-condition table of validate_model's raises covers t
 R14.4 [tables]      link-type alphabet / widths / dispatch tables agree; loader field
                     values equal the reference built from the mjModel layout
                     (load_model abstractly executed on mock models, braxlint/loader.py).
+R14.6 [exhaustive]   System.q_idx / qd_idx / dof_link / dof_ranges / num_links equal the coordinate layout of the source
+                    model for every link-type string of length <= 4 (5) and every type query.
 R14.5 [abstract execution] mjcf._fuse_bodies leaves no jointless body behind (nested and sibling ones included) and keeps
                     every geom / site / jointed body at its pose -- executed on mock documents (shared with C13 R13.4).
 """
@@ -192,7 +194,60 @@ def r14_4_fields(U, rep):
   loader_fields(U, rep)
 
 
+def index_helpers(U, rep, tier):
+  """R14.6 [exhaustive, abstract execution]: the System helpers that map links to coordinates -- q_idx, qd_idx, dof_link,
+  dof_ranges, num_links -- are executed for EVERY link-type string of length <= 4 (thorough: 5) over the alphabet and every
+  queried type subset, and equal the layout of the source model: link i owns q[qadr_i : qadr_i + nq_i] and
+  qd[dadr_i : dadr_i + nv_i] with the addresses accumulated in link order (MuJoCo's jnt_qposadr / jnt_dofadr)."""
+  import itertools
+  from braxlint import avn
+  from braxlint.avn import Struct, asarr, Rat
+  from braxlint.avnlib import new_interp
+  I = new_interp(U.repo)
+  f = U.func('brax.base.System.q_idx')
+  W = ALPHABET
+  maxlen = 4 if tier == 'quick' else 5
+  queries = ['f', '1', '2', '3', '123', 'f123', '13', 'f2']
+  bad = None
+  n = 0
+  ints = lambda v: [int(Rat.lift(x).constval()) for x in asarr(v).ravel()]
+  for L in range(1, maxlen + 1):
+    for lt in itertools.product('f123', repeat=L):
+      lt = ''.join(lt)
+      sysd = Struct('System', {'link_types': lt, 'link_parents': tuple(range(-1, L - 1))}, home='brax.base')
+      qadr, dadr, qa, da = [], [], 0, 0
+      for t in lt:
+        qadr.append(qa)
+        dadr.append(da)
+        qa += W[t][0]
+        da += W[t][1]
+      for query in queries:
+        n += 1
+        want_q = [k for i, t in enumerate(lt) if t in query for k in range(qadr[i], qadr[i] + W[t][0])]
+        want_d = [k for i, t in enumerate(lt) if t in query for k in range(dadr[i], dadr[i] + W[t][1])]
+        got_q = ints(I.apply(I.attr(sysd, 'q_idx'), [query], {}))
+        got_d = ints(I.apply(I.attr(sysd, 'qd_idx'), [query], {}))
+        if got_q != want_q and bad is None:
+          bad = ('q_idx(%r)' % query, lt, got_q, want_q)
+        if got_d != want_d and bad is None:
+          bad = ('qd_idx(%r)' % query, lt, got_d, want_d)
+      dl = ints(I.apply(I.attr(sysd, 'dof_link'), [], {}))
+      want_dl = [i for i, t in enumerate(lt) for _ in range(W[t][1])]
+      if dl != want_dl and bad is None:
+        bad = ('dof_link()', lt, dl, want_dl)
+      dr = I.apply(I.attr(sysd, 'dof_ranges'), [], {})
+      want_dr = [list(range(dadr[i], dadr[i] + W[t][1])) for i, t in enumerate(lt)]
+      if [list(map(int, r)) for r in dr] != want_dr and bad is None:
+        bad = ('dof_ranges()', lt, dr, want_dr)
+      if int(I.apply(I.attr(sysd, 'num_links'), [], {})) != L and bad is None:
+        bad = ('num_links()', lt, None, L)
+  rep.check(bad is None, 'R14.6', 'System.q_idx / qd_idx / dof_link / dof_ranges / num_links == the coordinate layout of the source model',
+            lambda: 'System.%s on link_types=%r returns %r, the source model\'s layout gives %r' % bad, where=f.where(),
+            construct='every link-type string of length <= %d x %d type queries (%d instances)' % (maxlen, len(queries), n))
+
+
 def run(U, rep, tier):
+  index_helpers(U, rep, tier)
   r14_1(U, rep)
   r14_2(U, rep)
   r14_4_tables(U, rep)
